@@ -90,59 +90,83 @@ Section Sender.
       let sum := checksum1 (takeZ k cur) in
       (k, sum_lo sum, sum_hi sum).
 
-    (** One run of the Outer loop body per unit of fuel. *)
-    Fixpoint search (fuel : nat) (off k s1 s2 lastm : Z)
-             (cur ahead lmc : list Z) (rtoks : list token) : option (Z * list Z * list token) + crash_site :=
+    (** State at the top of the Outer loop of hashSearch. *)
+    Record sstate := mkS {
+      st_off : Z; st_k : Z; st_s1 : Z; st_s2 : Z; st_lastm : Z;
+      st_cur : list Z;      (* file from offset *)
+      st_ahead : list Z;    (* file from offset + k *)
+      st_lmc : list Z;      (* file from lastMatch *)
+      st_rtoks : list token (* tokens emitted so far, newest first *)
+    }.
+
+    Inductive step_result :=
+    | Done (lastm : Z) (lmc : list Z) (rtoks : list token)
+    | Next (st : sstate)
+    | Crashed (c : crash_site).
+
+    (** One run of the Outer loop body (match.go:95-209). *)
+    Definition body (st : sstate) : step_result :=
+      let off := st_off st in let k := st_k st in
+      let s1 := st_s1 st in let s2 := st_s2 st in let lastm := st_lastm st in
+      let cur := st_cur st in let ahead := st_ahead st in
+      let lmc := st_lmc st in let rtoks := st_rtoks st in
+      let sum := (s1 mod 65536) + (s2 mod 65536) * 65536 in
+      let l := Z.min (h_blen h) (size - off) in
+      let m := scan (tt_find tt (tag2 s1 s2)) sum l cur None in
+      (* state after the optional match *)
+      let '(matched, off1, k1, s11, s21, lastm1, cur1, ahead1, lmc1, rtoks1) :=
+        match m with
+        | Some i =>
+            let n := off - lastm in
+            let len := block_len h i in
+            let rt := Ref i :: emit_lit n lmc rtoks in
+            let lmc' := dropZ (n + len) lmc in
+            let off' := off + len - 1 in
+            let cur' := dropZ (len - 1) cur in
+            let '(k', a, b) := read_chunk off' cur' in
+            (true, off', k', a, b, off + len, cur', dropZ k' cur', lmc', rt)
+        | None => (false, off, k, s1, s2, lastm, cur, ahead, lmc, rtoks)
+        end in
+      if matched && (end_ <=? off1) then Done lastm1 lmc1 rtoks1 else
+      (* rolling update *)
+      let backup := Z.max (off1 - lastm1) 0 in
+      let more := off1 + k1 <? size in
+      match cur1 with
+      | [] => Crashed CrashUpdate0
+      | u0 :: cur2 =>
+        let r :=
+          if more then
+            match ahead1 with
+            | [] => inr CrashUpdateK
+            | uk :: ahead2 =>
+                let a := s11 - se u0 + se uk in
+                inl (k1, a mod 65536, (s21 - k1 * se u0 + a) mod 65536, ahead2)
+            end
+          else inl (k1 - 1, (s11 - se u0) mod 65536, (s21 - k1 * se u0) mod 65536, ahead1) in
+        match r with
+        | inr c => Crashed c
+        | inl (k2, s12, s22, ahead2) =>
+          (* flush of a long unmatched run (token -2) *)
+          let '(lastm2, lmc2, rtoks2) :=
+            if (h_blen h + chunk <=? backup) && (chunk <? end_ - off1) then
+              let n := (off1 - h_blen h) - lastm1 in
+              (off1 - h_blen h, dropZ n lmc1, emit_lit n lmc1 rtoks1)
+            else (lastm1, lmc1, rtoks1) in
+          let off2 := off1 + 1 in
+          if end_ <=? off2 then Done lastm2 lmc2 rtoks2
+          else Next (mkS off2 k2 s12 s22 lastm2 cur2 ahead2 lmc2 rtoks2)
+        end
+      end.
+
+    Fixpoint search (fuel : nat) (st : sstate) : option (Z * list Z * list token) + crash_site :=
       match fuel with
       | O => inl None
       | S fuel' =>
-        let sum := (s1 mod 65536) + (s2 mod 65536) * 65536 in
-        let l := Z.min (h_blen h) (size - off) in
-        let m := scan (tt_find tt (tag2 s1 s2)) sum l cur None in
-        (* state after the optional match *)
-        let '(matched, off1, k1, s11, s21, lastm1, cur1, ahead1, lmc1, rtoks1) :=
-          match m with
-          | Some i =>
-              let n := off - lastm in
-              let len := block_len h i in
-              let rt := Ref i :: emit_lit n lmc rtoks in
-              let lmc' := dropZ (n + len) lmc in
-              let off' := off + len - 1 in
-              let cur' := dropZ (len - 1) cur in
-              let '(k', a, b) := read_chunk off' cur' in
-              (true, off', k', a, b, off + len, cur', dropZ k' cur', lmc', rt)
-          | None => (false, off, k, s1, s2, lastm, cur, ahead, lmc, rtoks)
-          end in
-        if matched && (end_ <=? off1) then inl (Some (lastm1, lmc1, rtoks1)) else
-        (* rolling update *)
-        let backup := Z.max (off1 - lastm1) 0 in
-        let more := off1 + k1 <? size in
-        match cur1 with
-        | [] => inr CrashUpdate0
-        | u0 :: cur2 =>
-          let r :=
-            if more then
-              match ahead1 with
-              | [] => inr CrashUpdateK
-              | uk :: ahead2 =>
-                  let a := s11 - se u0 + se uk in
-                  inl (k1, a mod 65536, (s21 - k1 * se u0 + a) mod 65536, ahead2)
-              end
-            else inl (k1 - 1, (s11 - se u0) mod 65536, (s21 - k1 * se u0) mod 65536, ahead1) in
-          match r with
-          | inr c => inr c
-          | inl (k2, s12, s22, ahead2) =>
-            (* flush of a long unmatched run (token -2) *)
-            let '(lastm2, lmc2, rtoks2) :=
-              if (h_blen h + chunk <=? backup) && (chunk <? end_ - off1) then
-                let n := (off1 - h_blen h) - lastm1 in
-                (off1 - h_blen h, dropZ n lmc1, emit_lit n lmc1 rtoks1)
-              else (lastm1, lmc1, rtoks1) in
-            let off2 := off1 + 1 in
-            if end_ <=? off2 then inl (Some (lastm2, lmc2, rtoks2))
-            else search fuel' off2 k2 s12 s22 lastm2 cur2 ahead2 lmc2 rtoks2
+          match body st with
+          | Done lastm lmc rtoks => inl (Some (lastm, lmc, rtoks))
+          | Crashed c => inr c
+          | Next st' => search fuel' st'
           end
-        end
       end.
   End Search.
 
@@ -164,8 +188,8 @@ Section Sender.
       let lastlen := block_len h (h_count h - 1) in
       let end_ := size + 1 - lastlen in
       let '(k, a, b) := read_chunk h size 0 target in
-      match search h tt size end_ (S (length target)) 0 k a b 0
-                   target (dropZ k target) target [] with
+      match search h tt size end_ (S (length target))
+                   (mkS 0 k a b 0 target (dropZ k target) target []) with
       | inr c => SCrash c
       | inl None => SFuel
       | inl (Some (lastm, lmc, rtoks)) =>
